@@ -4,6 +4,9 @@ tier), undo the change, and record which checks raised a VIOLATION.  Not a regis
 usage: run_seeded.py <seeded-id> [prop ...]   (props default to meta.json 'breaks')"""
 import json, os, subprocess, sys, time
 ROOT = os.path.dirname(os.path.dirname(os.path.abspath(__file__)))
+# checks may be run from a frozen copy of /verif (selftest/snap.sh) so that work in progress in
+# /verif/harness does not interfere; results are always recorded in /verif/selftest/results.json
+CHECK_ROOT = os.environ.get("CHECK_ROOT", ROOT)
 sid = sys.argv[1]
 d = os.path.join(ROOT, "seeded", sid)
 meta = json.load(open(os.path.join(d, "meta.json")))
@@ -14,7 +17,7 @@ res = {}
 try:
     for p in props:
         t0 = time.time()
-        r = subprocess.run([os.path.join(ROOT, "check"), p, "--tier", os.environ.get("SEEDED_TIER", "quick")], capture_output=True, text=True, cwd=ROOT)
+        r = subprocess.run([os.path.join(CHECK_ROOT, "check"), p, "--tier", os.environ.get("SEEDED_TIER", "quick")], capture_output=True, text=True, cwd=CHECK_ROOT)
         sigs = [l.strip()[len("signature: "):] for l in r.stdout.splitlines() if l.strip().startswith("signature:")]
         res[p] = {"exit": r.returncode, "signatures": sigs, "wall_s": round(time.time() - t0, 1), "tail": r.stdout.strip().splitlines()[-1:] }
         print(sid, p, "exit", r.returncode, sigs[:4], flush=True)
